@@ -3,4 +3,5 @@ CONSTANTS MaxLen = 4
  Profile = "opt"
  EnvSet = "clean"
  ExtraCheck <- OptCheck
+ Variant = "faithful"
 CHECK_DEADLOCK FALSE
